@@ -131,4 +131,10 @@ def initRun {M : Type} : Option M → List (Except BootErr M) → Option M × Li
     let (fin, oks) := initRun cur' bs
     (fin, ok :: oks)
 
+/-- overlapping calls of `SetXDSResourceManager`, in the order in which the callers obtain the holder's write lock
+(the body runs under that lock - fact `initShape`): what is installed after each of them -/
+def setRun {M : Type} (cur : Option M) : List M → List (Option M)
+  | [] => []
+  | m :: ms => setManager cur m :: setRun (setManager cur m) ms
+
 end XdsVerif.Bootstrap
